@@ -80,7 +80,7 @@ def cfg(**kw):
 def stage1(plans, workers_each=None):
     """plans: list of (name, cfg kwargs, expectation) with expectation None (must hold) or a set of clause names
     (TLC must report a violation and it must be one of them)."""
-    par = 1 if JOBS <= 4 else min(len(plans), max(3, JOBS // 2))   # concurrent JVMs
+    par = 1 if JOBS <= 4 else min(len(plans), max(3, (3 * JOBS) // 4))   # concurrent JVMs (most runs are tiny)
     workers_each = workers_each or max(1, JOBS // par)
 
     def one(p):
@@ -415,9 +415,14 @@ def signature(run, trace, badl, clause, fin):
         if e["op"] in ("readn", "readinto") or (e["op"] in ("stream", "iter") and f["framing"] != "chunked") \
                 or (e["op"] == "read" and e["len"] == 0 and badl > 1):
             sig = "zstd-incomplete-eof-reached-without-flush"
+    if clause == "MalformedChunkRaises" and f["dmg"] == "sizebyte" and f.get("line") == "malformed" and e and e["end"] \
+            and not e["err"] and isinstance(trace.get("int16"), int) and trace["int16"] >= 0:
+        # the damaged size token is not 1*HEXDIG, yet int(token, 16) -- used by http.client and by urllib3 -- takes it
+        # ("-0" is 0 = the terminating chunk; "7\r" is 7 because int() strips any whitespace)
+        sig = "size-token-accepted-by-liberal-int"
     if clause == "ok" and fin == "ConnNotReused":
         errs = [x["err"] for x in ev if x["err"]]
-        if errs and errs[0] == "DecodeError" and f["dmg"] in ("corrupt", "none") and f["framing"] != "close" \
+        if errs and errs[0] == "DecodeError" and f["dmg"] in ("corrupt", "none", "sizebyte") and f["framing"] != "close" \
                 and trace["conn"]["second"] == "same":
             sig = "decode-error-after-body-received-connection-reused"
     return {"clause": clause if clause != "ok" else fin, "sig": sig}
@@ -559,7 +564,7 @@ def large_runs(damaged, quick, seed):
                 nw = len(bg.build(base)["wire"])
                 cuts = sorted({1, nw // 2, min(nw - 2, 2 ** 20 + 4096), nw - 1})
                 for at in cuts:
-                    for ops, drain, preload in (mine if not quick else mine[:3] + rng.sample(mine[3:], 2)):
+                    for ops, drain, preload in (mine if not quick else mine[:3] + rng.sample(mine[3:], 1)):
                         runs.append({"case": dict(base, damage={"kind": "cut", "at": at}), "ops": list(ops),
                                      "drain": drain or ("readn", big), "preload": preload})
     return runs
